@@ -20,6 +20,23 @@ PROPS = {
         "level_text": "Exploration: tens to hundreds of thousands of planted complexes over 14 Euclidean rings; the answer is known by construction and re-derived by an independent SNF, generators and coordinate maps are re-multiplied exactly. Right level: input property with an exact oracle.",
         "level_note": "Trusts the planted construction (d^2 = 0 is asserted by the generator) and the oracle SNF; sampled shapes.",
     },
+    "C08": {
+        "budget_s": {"quick": 120, "thorough": 1800},
+        "floor": {"quick": 10000, "thorough": 200000},
+        "rule": "planted chain complexes of 1-5 (quick) / 1-6 maps, dims 0..10 / 0..16, over i64, BigInt, Ratio<i64>, FF<2>, FF<3>, FF<5> and Z[H] = Poly<H,i64> (unit and non-unit planted entries, conjugated by random unimodular maps); "
+                "three routes: ChainReducer::reduce(c,true); a manual schedule of reduce_all(shallow/deep) / reduce_at / reduce_at_spec(i, Rows|Cols, One|AnyUnit|Weight(1,2,5)) with per-degree tracking flags and 0-2 tracked vectors per degree; "
+                "ChainComplexBase::reduced(); x rayon pools of 1,2,4,8,16 threads x hook schedule policies (sleep before the pivot write lock, herd, delayed column starts); "
+                "checks (oracle products): shapes, d'd' = 0, f d = d' f, d b = b d', f b = id, tracked vector = f(v), homology of the reduced complex = homology of the original "
+                "(own SNF; over Z[H] after H := 0,1,2,-1 and additionally mod 2 and 3); non-trivial = at least one generator pair cancelled and >= 2 maps; distinct = hash(differentials, route, schedule, flags)",
+        "assumptions": COMMON_ASSUME + [
+            "b f ~ id (the homotopy) is not checked directly; it is implied for these complexes by f b = id, the chain-map identities and equality of homology decided by the oracle",
+            "over Z[H] homology is compared after specialisation (necessary conditions), since Z[H] is not a PID",
+            "different runs may return different reductions (pivot races, hash order); each is judged on its own",
+        ],
+        "technique": "reference-model monitor under varying strategies, thread pools and hook-injected schedule perturbation: reduced differentials, transfer maps and tracked vectors re-multiplied by own exact arithmetic; homology recomputed by an independent SNF",
+        "level_text": "Exploration: tens to hundreds of thousands of real reductions across seven rings, three API routes, all pivot strategies and 1..16 threads with perturbation of the pivot race window; every identity of the statement is recomputed exactly. Right level: input x configuration x schedule property with exact oracles for each clause.",
+        "level_note": "Trusts the planted construction and the oracle SNF; schedules sampled.",
+    },
     "C09": {
         "budget_s": {"quick": 120, "thorough": 1500},
         "floor": {"quick": 20000, "thorough": 300000},
